@@ -34,6 +34,9 @@ pub struct Case {
     /// Some((first_is_nla, first_check, second_is_nla, second_check)): two upgrade calls on the same transport
     /// (tpkt start_ssl / start_nla) against the certificate of the case; everything else is ignored
     pub upgrades: Option<(bool, bool, bool, bool)>,
+    /// Some(pos): the transport refuses ONE write call, the one that would carry client byte `pos` (connector path
+    /// only): the attempt may fail, but what was written stays within the rules — and so does the next connection
+    pub write_refused_at: Option<usize>,
 }
 
 pub struct C02 {
@@ -75,6 +78,26 @@ fn only_tls_records(b: &[u8]) -> Result<usize, String> {
         n += 1;
     }
     Ok(n)
+}
+
+/// like `only_tls_records`, but the last record may be cut short (the transport refused a write)
+fn only_tls_records_prefix(b: &[u8]) -> Result<(), String> {
+    let mut p = 0;
+    while p < b.len() {
+        let ct = b[p];
+        if !(0x14..=0x17).contains(&ct) || (b.len() - p > 1 && b[p + 1] != 3) {
+            return Err(format!("non-TLS bytes on the raw transport at offset {}: {:02x?}", p, &b[p..(p + 8).min(b.len())]));
+        }
+        if b.len() - p < 5 {
+            return Ok(());
+        }
+        let len = u16::from_be_bytes([b[p + 3], b[p + 4]]) as usize;
+        if b.len() - p - 5 < len {
+            return Ok(());
+        }
+        p += 5 + len;
+    }
+    Ok(())
 }
 
 /// two upgrade calls on one transport; judged: a call with checking on against an untrusted certificate must fail
@@ -124,7 +147,7 @@ impl Prop for C02 {
     }
     fn prepare(&mut self, tier: Tier) -> Result<(), String> {
         let mut cs = vec![];
-        let base = Case { direct_mask: None, use_nla: true, check_certificate: false, cert: Cert::A, cc_kind: CcKind::Response, selected: 2, cc_flags: 0, cc_len_field: 8, block: "base", mode: 0, no_provider: false, upgrades: None };
+        let base = Case { direct_mask: None, use_nla: true, check_certificate: false, cert: Cert::A, cc_kind: CcKind::Response, selected: 2, cc_flags: 0, cc_len_field: 8, block: "base", mode: 0, no_provider: false, upgrades: None, write_refused_at: None };
         // A: every selected-protocol value x configuration (through the public connector)
         for use_nla in [true, false] {
             for check in [false, true] {
@@ -134,6 +157,13 @@ impl Prop for C02 {
                     }
                     cs.push(Case { use_nla, check_certificate: check, selected: sel, block: "selected-value", ..base.clone() });
                 }
+            }
+        }
+        // A2: one write call refused by the transport at several points of the conversation (request, ClientHello, key
+        // exchange, first application record, later); judged alone and, in the pair block, followed by another case
+        for use_nla in [true, false] {
+            for pos in [0usize, 5, 19, 25, 300, 500, 800, 1100, 1500, 2200, 3000] {
+                cs.push(Case { use_nla, selected: if use_nla { 2 } else { 1 }, write_refused_at: Some(pos), block: "write-refused", ..base.clone() });
             }
         }
         // B: reply kinds x values
@@ -227,13 +257,15 @@ impl Prop for C02 {
                 v.push(i as u64);
             }
         }
+        // a refused write in the request, in the TLS handshake and after it, NLA on and off
+        v.extend((0..self.cases.len()).filter(|i| self.cases[*i].block == "write-refused" && matches!(self.cases[*i].write_refused_at, Some(5) | Some(500) | Some(1500) | Some(2200))).map(|i| i as u64));
         v
     }
     fn describe(&self, idx: u64) -> Value {
         json!({"idx": idx, "case": self.cases[idx as usize]})
     }
     fn rule(&self) -> String {
-        "cases = (connector configuration | offered mask, server certificate, connection-confirm contents). [selected-value] all 256 low-byte values, every single bit 2^8..2^31 and mixed patterns x NLA on/off x certificate checking on/off; [reply-kind] failure / echoed request / absent / every other type byte x 6 values; [flags] every flag byte x valid and invalid selection; [length-field]; [offered-mask] x224::Client::connect with masks {0,1,2,3,8,0xB} x 10 selections x 3 kinds; [offered-mask-no-provider] the same without an authentication provider; [selected-value-x-mode] 7 selections under restricted admin / blank credentials / hash logon; the negotiation request on the wire must offer exactly the configured protocols; [two-upgrades] every ordered pair of {start_ssl, start_nla} x {checking on, off} on one transport against an untrusted, an expired and a trusted certificate; [certificate] trusted RSA, trusted EC, a leaf of a trusted root; and six kinds of untrusted certificate: unknown self-signed, trusted-but-expired, trusted-but-not-yet-valid, leaf of an unknown root, leaf naming the trusted root but signed by another key, trusted certificate with a flipped signature bit; x checking x NLA x logon mode (plain, restricted admin, blank credentials, NT hash). Executed through the real Connector::connect over real TLS. Non-trivial: the reply is not the honest one for the configuration.".into()
+        "cases = (connector configuration | offered mask, server certificate, connection-confirm contents). [selected-value] all 256 low-byte values, every single bit 2^8..2^31 and mixed patterns x NLA on/off x certificate checking on/off; [reply-kind] failure / echoed request / absent / every other type byte x 6 values; [flags] every flag byte x valid and invalid selection; [length-field]; [offered-mask] x224::Client::connect with masks {0,1,2,3,8,0xB} x 10 selections x 3 kinds; [offered-mask-no-provider] the same without an authentication provider; [selected-value-x-mode] 7 selections under restricted admin / blank credentials / hash logon; the negotiation request on the wire must offer exactly the configured protocols; [write-refused] one write call refused by the transport at 11 byte positions from the request to the application records, NLA on and off: whatever was written obeys the same rules, and (pair block) so does the connection that follows in the same process; [two-upgrades] every ordered pair of {start_ssl, start_nla} x {checking on, off} on one transport against an untrusted, an expired and a trusted certificate; [certificate] trusted RSA, trusted EC, a leaf of a trusted root; and six kinds of untrusted certificate: unknown self-signed, trusted-but-expired, trusted-but-not-yet-valid, leaf of an unknown root, leaf naming the trusted root but signed by another key, trusted certificate with a flipped signature bit; x checking x NLA x logon mode (plain, restricted admin, blank credentials, NT hash). Executed through the real Connector::connect over real TLS. Non-trivial: the reply is not the honest one for the configuration.".into()
     }
     fn assumptions(&self) -> Vec<String> {
         vec![
@@ -257,7 +289,7 @@ impl Prop for C02 {
             return two_upgrades(&c, &cfg, n1, c1, n2, c2);
         }
         let (ok, err, peer, _sh): (bool, String, Rc<RefCell<TlsPeer>>, _) = match c.direct_mask {
-            None => match tls_connect(&cfg, p, vec![], c.cert) {
+            None => match crate::tls::tls_connect_fragmented(&cfg, p, vec![], c.cert, crate::memlink::ReadPlan::All, match c.write_refused_at { Some(pos) => crate::memlink::WritePlan::ErrOnceAt { pos, kind: std::io::ErrorKind::Other }, None => crate::memlink::WritePlan::All }) {
                 Ok(t) => (t.client.is_some(), t.error.clone().unwrap_or_default(), t.peer.clone(), t.sh.clone()),
                 Err(e) => return Outcome::fail("setup", "machinery", e),
             },
@@ -279,6 +311,32 @@ impl Prop for C02 {
             }
         };
         let pr = peer.borrow();
+        if let Some(pos) = c.write_refused_at {
+            // whatever reached the transport before the server asked for TLS is (a prefix of) the connection request,
+            // nothing secret is on the raw transport, nothing credential-bearing outside TLS
+            match framing::deframe(&pr.raw_before_tls) {
+                framing::Deframe::Frame(framing::Frame::Tpkt(cr), n) if n == pr.raw_before_tls.len() && framing::parse_x224_cr(&cr).is_ok() => {}
+                framing::Deframe::Incomplete if pr.raw_before_tls.len() < 19 => {}
+                _ => return Outcome::fail("mismatch", "pre-tls-bytes-are-not-exactly-one-connection-request", format!("write refused at byte {}: {:02x?}", pos, &pr.raw_before_tls[..pr.raw_before_tls.len().min(48)])),
+            }
+            let raw_all = [&pr.raw_before_tls[..], &pr.raw_after_cc[..]].concat();
+            for (what, needle) in [("NTLMSSP", b"NTLMSSP".to_vec()), ("password-utf8", cfg.client.password.as_bytes().to_vec()), ("password-utf16", utf16le(&cfg.client.password)), ("user-utf16", utf16le(&cfg.client.user))] {
+                if find(&raw_all, &needle).is_some() {
+                    return Outcome::fail("mismatch", format!("{}-on-raw-transport", what), format!("found in the clear in a conversation whose write at byte {} was refused", pos));
+                }
+            }
+            for m in &pr.srv.log {
+                if !m.inside_tls && (m.name.starts_with("cssp_") || m.name.starts_with("client_info")) {
+                    return Outcome::fail("mismatch", format!("{}-sent-outside-tls", m.name.split('_').next().unwrap_or("msg")), format!("{} written in clear text", m.name));
+                }
+            }
+            if !pr.raw_after_cc.is_empty() {
+                if let Err(e) = only_tls_records_prefix(&pr.raw_after_cc) {
+                    return Outcome::fail("mismatch", "non-tls-bytes-after-confirm", e);
+                }
+            }
+            return Outcome::pass(format!("write-refused:{}", if ok { "connected" } else { "failed" }), true);
+        }
         // 1. before the confirm: exactly one TPKT carrying the connection request
         match framing::deframe(&pr.raw_before_tls) {
             framing::Deframe::Frame(framing::Frame::Tpkt(cr), n) if n == pr.raw_before_tls.len() && framing::parse_x224_cr(&cr).is_ok() => {}
